@@ -64,9 +64,11 @@ def query_side(ctx, h, res):
     settings = list(itertools.product(("FORWARD", "BACKWARD", "ANY"), c04.UHS[:2], ("none", "accept", "rejD"))) + [("ANY", "NEIGHBOR", "closure-1"), ("ANY", "NEIGHBOR", "closure-2"), ("FORWARD", "NEIGHBOR", "closure-1")]
     rows = [("DirectedEdge", "v1"), ("DirectedEdge", "v2"), ("SymTwo", "v1"), ("UnDirectedEdge", "v2")]
     m = 0
-    for s1, s2 in itertools.product(settings, settings):
-        if s1 == s2:
-            continue
+    pairs = [(s1, s2) for s1, s2 in itertools.product(settings, settings) if s1 != s2]
+    for d_, f_ in itertools.product(("FORWARD", "BACKWARD", "ANY"), ("none", "accept", "rejD")):
+        for u_ in c04.UHS[:2]:     # ERROR differs from the other modes only in unknown_handling: a key that conflates them serves a list where an exception is due
+            pairs += [((d_, u_, f_), (d_, "ERROR", f_)), ((d_, "ERROR", f_), (d_, u_, f_))]
+    for s1, s2 in pairs:
         try:
             res2 = []
             for caching in (False, True):
@@ -101,7 +103,7 @@ def memo_rule(ctx, res):
         for d in f.node.decorator_list:
             s = ast.unparse(d)
             if any(k in s for k in ("lru_cache", "functools.cache", "cached_property")) or s in ("cache",):
-                res.violation("MEMO", f.qual, "decorator", f"{f.loc()}: memoising decorator {s} - answers would survive graph mutations", detail=f.loc())
+                res.note(f"MEMO pointer: {f.loc()} {f.qual} carries the memoising decorator {s}; whether its answers survive graph mutations is decided by the cached/uncached comparisons")
     res.rule("MEMO", n)
 
 
@@ -109,7 +111,12 @@ def invalidation(ctx, h, res):
     maxlen = 3
     total = 0
     for flag in (True, False):
-        gens = [struct.core_runs(h, maxlen if flag or ctx.thorough else 2, memo="warm", flag=flag, res=res, classes=("DirectedEdge", "UnDirectedEdge", "SymTwo") if not ctx.thorough else struct.LCLASSES),
+        if ctx.thorough:
+            core = [struct.core_runs(h, maxlen, memo="warm", flag=flag, res=res, classes=struct.LCLASSES)]
+        else:
+            core = [struct.core_runs(h, 3 if flag else 2, memo="warm", flag=flag, res=res, classes=("DirectedEdge",)),
+                    struct.core_runs(h, 2, memo="warm", flag=flag, res=res, classes=("UnDirectedEdge", "SymTwo"))]
+        gens = core + [
                 struct.core_runs(h, 2, memo="warm", flag=flag, res=res, classes=("DirectedEdge",), vcls="SymFalsyVert"),
                 struct.ctor_runs(h, res=res, memo="warm", flag=flag),
                 struct.explicit_runs(h, res=res, memo="warm", flag=flag, thorough=ctx.thorough)]
@@ -130,7 +137,9 @@ def invalidation(ctx, h, res):
                     continue
                 memo = v.fields.get(struct.MEMO)
                 if isinstance(memo, DictV) and any(val is rec.p.ghost[r] for _, val in memo.pairs):
-                    stale.append(r)
+                    # the entry physically survives: is it still *served*?  (a lazily validated / version-stamped memo may keep it)
+                    if served_stale(h, v, memo, rec.p.ghost[r]):
+                        stale.append(r)
             ok = not stale
             res.ob(ok, sig=("inv", flag, rec.family, rec.lcls, rec.ends, rec.op, rec.arg, getattr(rec, "choices", ())),
                    sample={"flag_on": flag, "link_class": rec.lcls, "ends": list(rec.ends), "call": rec.op, "arg": str(rec.arg), "stale": stale})
@@ -142,6 +151,25 @@ def invalidation(ctx, h, res):
                               f"(flag {'on' if flag else 'off'} during the mutation)",
                               detail=f"pre {rec.pre}\npost {rec.post}", replay=replay_inv(rec, flag, stale))
     res.rule("INVALIDATE", total)
+
+
+def served_stale(h, v, memo, ghost):
+    key = next(k for k, val in memo.pairs if val is ghost)
+    get = v.cls.lookup("_qa_neighbors_get")[0]
+    if get is None:
+        return True
+    saved = h.fn(struct.FLAG).dict.get("NEIGHBOR_CACHING")
+    h.fn(struct.FLAG).dict["NEIGHBOR_CACHING"] = True
+    try:
+        out = h.call(get, v, *key.items)
+    except Unknown:
+        return True
+    finally:
+        h.fn(struct.FLAG).dict["NEIGHBOR_CACHING"] = saved
+    if out.kind != "return":
+        return False
+    val = out.value
+    return val is ghost or (isinstance(val, Seq) and any(x is ghost.items[0] for x in val.items))
 
 
 def replay_inv(rec, flag, stale):
@@ -216,6 +244,78 @@ def registry(ctx, h, res):
     res.rule("REGISTRY", n)
 
 
+def interleave(ctx, h, res):
+    """query - mutate - query histories through the public entry points (neighbors, the three traversals, the three searches) with
+    caching on, with or without switching the flag off around the mutation, compared with the same history with caching off."""
+    C = c04.consts(h)
+    f = h.fn
+    nb = f(NB)
+    queries = {"neighbors": lambda G: h.call(nb, G["a"]), "neighbors(c)": lambda G: h.call(nb, G["c"], C["ANY"]),
+               "neighbors(b, BACKWARD)": lambda G: h.call(nb, G["b"], C["BACKWARD"])}
+    for mod, names_ in (("edgegraph.traversal.breadthfirst", ("bft", "bfs")), ("edgegraph.traversal.depthfirst", ("dft_recursive", "dft_iterative", "dfs_recursive", "dfs_iterative"))):
+        for n_ in names_:
+            fn = f(f"{mod}.{n_}")
+            if n_.startswith(("bfs", "dfs")):
+                queries[n_] = lambda G, _fn=fn: h.call(_fn, None, G["a"], "name", "d")
+            else:
+                queries[n_] = lambda G, _fn=fn: h.call(_fn, None, G["a"])
+    ex = "edgegraph.builder.explicit."
+    muts = {
+        "e_ab.v2 = d": lambda G: h.setattr(G["e_ab"], "v2", G["d"]),
+        "e_ab.v1 = c": lambda G: h.setattr(G["e_ab"], "v1", G["c"]),
+        "unlink(a, b)": lambda G: h.call(f(ex + "unlink"), G["a"], G["b"]),
+        "link_directed(c, d)": lambda G: h.call(f(ex + "link_directed"), G["c"], G["d"]),
+        "b.remove_from_link(e_bc)": lambda G: h.call(h.I.getattr(G["b"], "remove_from_link"), G["e_bc"]),
+        "e_bc.unlink_from(c); e_bc.add_vertex(d)": lambda G: (h.call(h.I.getattr(G["e_bc"], "unlink_from"), G["c"]), h.call(h.I.getattr(G["e_bc"], "add_vertex"), G["d"]))[1],
+    }
+
+    def build():
+        h.reset()
+        G = {n_: h.new("Vertex", n_, attributes=DictV([["name", n_]])) for n_ in "abcd"}
+        G["e_ab"] = h.new("DirectedEdge", "e_ab", G["a"], G["b"])
+        G["e_bc"] = h.new("DirectedEdge", "e_bc", G["b"], G["c"])
+        G["e_ac"] = h.new("UnDirectedEdge", "e_ac", G["a"], G["c"])
+        h.settle()
+        return G
+
+    def sig(o):
+        if o.kind == "raise":
+            return "raise " + o.excname
+        v = o.value
+        return [x.name if isinstance(x, Obj) else x for x in v.items] if isinstance(v, Seq) else (v.name if isinstance(v, Obj) else v)
+
+    n = 0
+    for qn, q in queries.items():
+        for mn, m in muts.items():
+            for toggle in (False, True):
+                try:
+                    outs = []
+                    for caching in (False, True):
+                        G = build()
+                        set_flag(h, caching)
+                        for v_ in "abcd":       # warm every memo under the settings the queries use
+                            q(G) if v_ == "a" else None
+                        for qq in queries.values():
+                            qq(G)
+                        if toggle:
+                            set_flag(h, False)
+                        m(G)
+                        if toggle:
+                            set_flag(h, caching)
+                        outs.append([sig(qq(G)) for qq in (q,)])
+                except Unknown as u:
+                    res.ob(False)
+                    res.undecide(f"interleaving {qn} / {mn}: {u}")
+                    continue
+                n += 1
+                ok = outs[0] == outs[1]
+                res.ob(ok, sig=("interleave", qn, mn, toggle))
+                if not ok:
+                    res.violation("INTERLEAVE", NB if qn.startswith("neighbors") else qn, f"mutation={mn.split('(')[0].split(' ')[0]},flag-toggled-around-mutation={toggle}",
+                                  f"history [every query once; {'flag off; ' if toggle else ''}{mn}; {'flag on; ' if toggle else ''}{qn}] answers {outs[1][0]} with caching on but {outs[0][0]} with caching off")
+    res.rule("INTERLEAVE", n)
+
+
 def only_neighbors(ctx, res):
     """Traversals and searches move through the graph only via helpers.neighbors."""
     prog = common.program(ctx)
@@ -237,8 +337,7 @@ def only_neighbors(ctx, res):
             n += 1
             for node in ast.walk(f.node):
                 if isinstance(node, ast.Attribute) and node.attr in banned:
-                    res.violation("ONLY-NEIGHBORS", f.qual, f"attr={node.attr}",
-                                  f"{f.rel}:{node.lineno}: traversal code reads .{node.attr} directly instead of going through helpers.neighbors (the cache-transparency argument only covers neighbors())")
+                    res.note(f"ONLY-NEIGHBORS pointer: {f.rel}:{node.lineno} {f.qual} reads .{node.attr} directly instead of going through helpers.neighbors (uncached, hence transparent; C06/C07 decide whether the listing is still right)")
     res.rule("ONLY-NEIGHBORS", n)
 
 
@@ -250,16 +349,17 @@ def run(ctx):
     res.trusted_base = common.TRUSTED_AE + ["neighbour signature (rules/struct.nbsig): order of v.links, and per named link its class kind, position of v and opposite end - the read set of neighbors()/other()"]
     res.assumptions = ["filter callbacks are pure and compared by identity in memo keys", "dill restores instance dictionaries faithfully (third-party behaviour, not decided)"]
     common.identity_model(ctx)
-    h = H(ctx.src, ["edgegraph.traversal.helpers", "edgegraph.builder.explicit", "edgegraph.traversal.breadthfirst"])
+    h = H(ctx.src, ["edgegraph.traversal.helpers", "edgegraph.builder.explicit", "edgegraph.traversal.breadthfirst", "edgegraph.traversal.depthfirst"])
     query_side(ctx, h, res)
     memo_rule(ctx, res)
     invalidation(ctx, h, res)
     registry(ctx, h, res)
+    interleave(ctx, h, res)
     only_neighbors(ctx, res)
     common.vacuity(res, "CACHED-EQ", 540)
     key_args_rule(ctx, res)
     common.vacuity(res, "KEY", 300)
-    common.vacuity(res, "INVALIDATE", 5000)
+    common.vacuity(res, "INVALIDATE", 3000)
     common.vacuity(res, "REGISTRY", 8)
     res.analysed = common.analysed(ctx, [NB, "edgegraph.structure.vertex.Vertex._qa_neighbors_get", "edgegraph.structure.vertex.Vertex._qa_neighbors_invalidate",
                                          "edgegraph.structure.vertex.Vertex._qa_neighbors_insert"] + [q for q in struct.QUAL.values() if "[" not in q])
@@ -283,7 +383,9 @@ def key_args_rule(ctx, res):
     n = 0
     for node in ast.walk(f.node):
         if isinstance(node, ast.Call) and isinstance(node.func, ast.Attribute) and node.func.attr in ("_qa_neighbors_get", "_qa_neighbors_insert"):
-            for a in list(node.args) + [k.value for k in node.keywords]:
+            allargs = list(node.args) + [k.value for k in node.keywords]
+            plain = {x.id for x in allargs if isinstance(x, ast.Name)} | {e.id for x in allargs if isinstance(x, (ast.Tuple, ast.List)) for e in x.elts if isinstance(e, ast.Name)}
+            for a in allargs:
                 n += 1
                 for sub in ast.walk(a):
                     bad = None
@@ -293,6 +395,8 @@ def key_args_rule(ctx, res):
                         bad = f".{sub.attr}"
                     elif isinstance(sub, ast.Call) and isinstance(sub.func, ast.Name) and sub.func.id == "getattr" and len(sub.args) >= 2 and isinstance(sub.args[1], ast.Constant) and sub.args[1].value in SURROGATE_ATTRS:
                         bad = f"getattr(..., {sub.args[1].value!r})"
+                    if bad and any(isinstance(x, ast.Name) and x.id in params and x.id in plain for x in ast.walk(sub)):
+                        bad = None      # the parameter itself is part of the key as well: the surrogate only adds to it
                     if bad:
                         res.violation("KEY-ARGS", NB, f"surrogate={bad}", f"{f.rel}:{node.lineno}: the memo key passed to {node.func.attr}() contains `{ast.unparse(a)}`: {bad} of an argument is shared by "
                                       "distinct arguments (re-used ids of collected callables, closures of one lambda, colliding hashes), so a cached answer computed for one is served for another",
